@@ -13,6 +13,9 @@ RULES = [
     {"kind": "binary", "func": "fullBufferWriter", "old": "1 * time.Second", "new": "20 * time.Millisecond"},
     {"kind": "literal", "func": "Push", "old": "100_000", "new": "1"},
     {"kind": "literal", "func": "Push", "old": "100", "new": "2"},
+    # popRank list size: kept larger than the number of distinct batch counts any replayed history reaches
+    # (<= 5), so the purge of the unchanged code stays as unreachable as it is with the real constant
+    {"kind": "literal", "func": "NewGsfaWriter", "old": "10_000", "new": "8"},
 ]
 
 MC = """SPECIFICATION Spec
@@ -111,8 +114,11 @@ def run(ctx):
         b = ctx.go_build("./gsfa", ov, name="gsfa_shrunk")
         obs += ctx.go_run(b, "^TestVerifC06Schedules$", cases=casep, out="obs_sched.ndjson", timeout_s=3000)
         # shrunk constants, free-running scheduler, long random histories over many addresses
-        for i in range(3 if q else 25):
-            obs += ctx.go_run(b, "^TestVerifC06Real$", env={"VERIF_C06_RUN": str(i)}, out=f"obs_sreal{i}.ndjson")
+        for i in range(6 if q else 40):
+            env = {"VERIF_C06_RUN": str(i)}
+            if i % 3 != 0:
+                env["VERIF_C06_PERIODIC"] = "2"   # periodic partial flushes at the shrunk threshold
+            obs += ctx.go_run(b, "^TestVerifC06Real$", env=env, out=f"obs_sreal{i}.ndjson")
     else:
         ctx.assumptions.append("literal rewrite did not find all its sites: schedules not replayed, real constants only")
     # ---- real constants (unmodified file)
